@@ -1,5 +1,6 @@
 import SgVerif.C26.Lemmas
 import SgVerif.C26.FatTreeLemmas
+import SgVerif.C26.DragonflyLemmas
 /-
 C26 — Structured topologies follow their routing algorithms.  Property theorems (nothing else in this file).
 Every theorem is for ALL shapes (any number of dimensions, any sizes >= 1) and all node pairs: no enumeration.
@@ -165,6 +166,45 @@ which is disconnected: the green link of chassis 1 ends on router 3 = (0,1,1), n
 theorem dragonfly_same_group_regression :
     (⟨1, 2, 2, 1, false, false, true, 0⟩ : Dragonfly).steps ⟨0, 1, 0⟩ ⟨0, 0, 1⟩ =
       [⟨2, .green 1, true, 3⟩, ⟨3, .black 0, true, 3⟩] := by decide
+
+/-- **the documented hop structure**, exactly: for every shape with `groups <= routers per chassis` (what
+`add_netzone_dragonfly` accepts) and every pair of router coordinates within the shape, the control flow of
+get_local_route yields `specSteps`: towards another group `[green to the blade numbered like the target group]?
+[black to chassis 0]? blue [green to the target blade]? [black to the target chassis]?`, inside a group
+`[green to the target blade]? [black to the target chassis]?`, each hop present iff the coordinate it fixes differs -/
+theorem dragonfly_hop_structure (d : Dragonfly) (my tg : RCoord) (hmy : my.InRange d) (htg : tg.InRange d)
+    (hGB : d.G ≤ d.B) : d.steps my tg = d.specSteps my tg :=
+  steps_eq_spec d my tg hmy htg hGB
+
+/-- **connectivity** (repaired code): every hop is read from the link arrays of the router the walk is on (a valid index
+of `routers_`), the link in that slot leads — by the wiring of generate_links, `Dragonfly.peer` — to the router the next
+hop is read from, and the last one leads to the target router; the first hop leaves from the source router -/
+theorem dragonfly_connected (d : Dragonfly) (my tg : RCoord) (hmy : my.InRange d) (htg : tg.InRange d) (hGB : d.G ≤ d.B) :
+    DConnected d (d.ridx my) (d.steps my tg) (d.ridx tg) := by
+  rw [steps_eq_spec d my tg hmy htg hGB]
+  exact specSteps_connected d my tg hmy htg hGB
+
+/-- the same for the routers of two leaves `src`, `dst < G*C*B*N` (the coordinates `rankId_to_coords` computes are within
+the shape): this is the list of hops `Dragonfly.route` renders between the source's and the target's local links -/
+theorem dragonfly_route_connected (d : Dragonfly) (hGB : d.G ≤ d.B) (src dst : Nat) (hs : src < d.tot) (hd : dst < d.tot) :
+    (d.coords src).1.InRange d ∧ (d.coords dst).1.InRange d ∧
+    DConnected d (d.ridx (d.coords src).1) (d.steps (d.coords src).1 (d.coords dst).1) (d.ridx (d.coords dst).1) :=
+  ⟨coords_inRange d src hs, coords_inRange d dst hd,
+   dragonfly_connected d _ _ (coords_inRange d src hs) (coords_inRange d dst hd) hGB⟩
+
+/-- on the link tables: when the tables built by `genLinks` are wired as `peer` says (`wiringOk`: executable, evaluated
+by the driver on every dragonfly of the correspondence and by `decide` below — NOT proved for all shapes), every hop's
+slot holds a link whose other half sits in the back slot of the router the next hop leaves from -/
+theorem dragonfly_hops_are_links (d : Dragonfly) (hw : d.wiringOk = true) (my tg : RCoord) (hmy : my.InRange d)
+    (htg : tg.InRange d) (hGB : d.G ≤ d.B) : DLinked d (d.ridx my) (d.steps my tg) (d.ridx tg) :=
+  DConnected_linked d hw _ _ _ (dragonfly_connected d my tg hmy htg hGB)
+
+/-- non-vacuity: 2 groups x 2 chassis x 2 routers: the tables are wired as `peer` says, and router (0,1,0) -> (1,1,1) takes
+all five hops green, black, blue, green, black -/
+example : (⟨2, 2, 2, 1, false, false, true, 0⟩ : Dragonfly).wiringOk = true := by decide
+example : ((⟨2, 2, 2, 1, false, false, true, 0⟩ : Dragonfly).steps ⟨0, 1, 0⟩ ⟨1, 1, 1⟩).map (fun s => (s.owner, s.slot)) =
+    [(2, .green 1), (3, .black 0), (1, .blue), (4, .green 1), (5, .black 1)] := by decide
+example : (⟨1, 1, 1⟩ : RCoord).InRange ⟨2, 2, 2, 1, false, false, true, 0⟩ := by unfold RCoord.InRange; decide
 
 /-! ## Fat tree (FatTreeZone::get_local_route)
 
